@@ -1,7 +1,12 @@
 CONSTANTS
-  FixAsyncCb = FALSE
-  FixCbOutsideLock = FALSE
-  FixKickoff = FALSE
+  FixAsyncCb = TRUE
+  FixCbRpc = TRUE
+  FixCbEl = TRUE
+  FixKickoff = TRUE
+  FixDispatch = TRUE
+  FixPolicy = TRUE
+  FixResend = TRUE
+  FixRecover = TRUE
 INIT Init
 NEXT Next
 CHECK_DEADLOCK FALSE
